@@ -28,6 +28,76 @@ def in_domain(ls):
     return all(not (l != "" and l.strip() == "") and l != "." for l in ls) and ls != [""]
 
 
+# ------------------------------------------------------------------------------------------------
+# P-17a: the multiline codec functions against per-line specs; round trip of one line as a lemma
+import z3
+from vf.pyvc.speclib import SpecLib
+from vf.pyvc.world import World, Contract
+from vf.pyvc.interp import LoopSpec
+from vf.pyvc.values import VSeq, VFunc, fresh, fresh_name
+from vf.pyvc.driver import verify_contracts, verify_lemmas, Lemma
+
+
+def fmt_line(i, line):
+    """what format_multiline_lines does to line i"""
+    if i == 0:
+        return line
+    if not line.strip():
+        return " ."
+    return " " + line
+
+
+def fmt_upto(ls, k):
+    if k <= 0:
+        return empty_lines()
+    return fmt_upto(ls, k - 1) + [fmt_line(k - 1, ls[k - 1])]
+
+
+def dec_line(i, line):
+    """what parse_multiline_as_lines does to line i (for lines that start with a blank)"""
+    if i == 0:
+        return line
+    if line[1:] == ".":
+        return ""
+    return line[1:]
+
+
+class FormatLines(Contract):
+    target = MOD + ":format_multiline_lines"
+    modular = False
+    ensures = ("result == '\\n'.join(fmt_upto(lines, len(lines)))",)
+    loops = {0: LoopSpec(invariants=("out_lines == fmt_upto(lines, fi)", "0 <= fi and fi <= len(lines)",
+                                     "mention(fmt_upto(lines, fi + 1))"),
+                         index="fi", var_types={"i": "int", "line": "str", "out_lines": ("list", "str")})}
+    locals_order = ["lines", "out_lines", "i", "line"]
+
+    def setup(self, ex):
+        return {"lines": fresh(("list", "str"), "lines").val}
+
+
+class LineRoundTrip(Lemma):
+    name = "decoding an encoded line gives the line back"
+    function = "spec:fmt_line"
+    params = (("i", "int"), ("line", "str"))
+    # side condition of the property: the line is not whitespace-only (empty is fine) and not a lone '.'
+    requires = ("i >= 0", "line == '' or len(line.strip()) > 0", "line != '.'")
+    claim = "dec_line(i, fmt_line(i, line)) == line and (i == 0 or fmt_line(i, line).startswith(' '))"
+
+
+def run_deductive(ctx):
+    sl = SpecLib()
+    w = World(sl)
+    w.spec_env["empty_lines"] = VFunc("builtin", "empty_lines",
+                                      fn=lambda ex, a, kw: VSeq("list", "str", z3.Empty(z3.SeqSort(z3.SeqSort(z3.IntSort())))))
+    for f in (fmt_line, dec_line):
+        w.spec_func(f)
+    w.spec_func(fmt_upto, rec=dict(args=[("list", "str"), "int"], ret=("list", "str")))
+    c = FormatLines()
+    verify_contracts(ctx, w, [c], {})
+    verify_lemmas(ctx, w, [LineRoundTrip()])
+    ctx.solve()
+
+
 def run(ctx):
     mod = extract.load(MOD)
     real = mod.real()
@@ -36,6 +106,7 @@ def run(ctx):
         node, _ = mod.lookup(q)
         if node is not None:
             ctx.function_under_contract(MOD + ":" + q, mod.segment(node))
+    run_deductive(ctx)
     rng = random.Random(ctx.seed)
     N = 3 if ctx.tier == "quick" else 4
     t = Tally(ctx, "B-17 multiline codec on all short line lists; documents dump -> strict parse -> dump",
@@ -107,7 +178,10 @@ def run(ctx):
             break
     t.done()
     ctx.level = "other"
-    ctx.explanation = "BOUNDED ONLY in this revision (see module docstring)."
+    ctx.explanation = ("PROVED from the AST: format_multiline_lines(lines) == '\\n'.join of the per-line encoding fmt_line (loop invariant); "
+                       "LEMMA (all lines): decoding an encoded line gives the line back whenever it is not whitespace-only and not a "
+                       "lone '.', and every encoded continuation line starts with a blank. NOT proved: parse_multiline_as_lines (in-place "
+                       "update while iterating), the join/splitlines law, License / paragraph classes - BOUNDED part (see module docstring).")
     ctx.assumptions += ["the single empty line list [''] is outside the domain of the codec clause (it encodes to '' which decodes to [])",
                         "lines contain no line-boundary characters"]
 
